@@ -258,7 +258,9 @@ func (pm *ProtocolManager) handleMsg(p *peer) error {
 		}
 		if last == nil {
 			last = pm.chainman.CurrentBlock()
-			request.Amount = last.Height - request.Number + 1
+			if available := last.Height - request.Number + 1; available < request.Amount {
+				request.Amount = available
+			}
 		}
 		if last.Height < request.Number {
 			return p.SendBlockHashes(nil)
